@@ -75,6 +75,11 @@ type (
 		line      int
 		col       int
 
+		// textBoundary is set behind a construct which leaves no token (comment,
+		// verbatim marker): the text following it becomes a token of its own even
+		// if it is empty, so that whitespace control of the next tag can't reach
+		// across the construct.
+		textBoundary bool
 		inVerbatim   bool
 		verbatimName string
 	}
@@ -246,14 +251,15 @@ func (l *lexer) run() {
 				l.col += w
 				l.ignore()
 				l.inVerbatim = false
+				l.textBoundary = true
 				// Re-examine the input right after the block: another verbatim
 				// block (or any other construct) may start here.
 				continue
 			}
 		} else if strings.HasPrefix(l.input[l.pos:], "{% verbatim %}") { // tag
-			if l.pos > l.start {
-				l.emit(TokenHTML)
-			}
+			// The text in front ends here (even if there's none, see textBoundary)
+			l.emit(TokenHTML)
+			l.textBoundary = false
 			l.inVerbatim = true
 			w := len("{% verbatim %}")
 			l.pos += w
@@ -266,9 +272,9 @@ func (l *lexer) run() {
 		if !l.inVerbatim {
 			// Ignore single-line comments {# ... #}
 			if strings.HasPrefix(l.input[l.pos:], "{#") {
-				if l.pos > l.start {
-					l.emit(TokenHTML)
-				}
+				// The text in front ends here (even if there's none, see textBoundary)
+				l.emit(TokenHTML)
+				l.textBoundary = false
 
 				l.pos += 2 // pass '{#'
 				l.col += 2
@@ -292,6 +298,7 @@ func (l *lexer) run() {
 					l.next()
 				}
 				l.ignore() // ignore whole comment
+				l.textBoundary = true
 
 				// Comment skipped
 				continue // next token
@@ -299,8 +306,9 @@ func (l *lexer) run() {
 
 			if strings.HasPrefix(l.input[l.pos:], "{{") || // variable
 				strings.HasPrefix(l.input[l.pos:], "{%") { // tag
-				if l.pos > l.start {
+				if l.pos > l.start || l.textBoundary {
 					l.emit(TokenHTML)
+					l.textBoundary = false
 				}
 				l.tokenize()
 				if l.errored {
